@@ -214,6 +214,8 @@ def run(prop, tier, seed, replay, obligations_extra=()):
         scenarios = list(ex.map(work, scenarios))
 
     known = pk.known_findings(prop)
+    foreign = [k for k in json.load(open(os.path.join(pk.VERIF, "known_findings.json"))).get("findings", [])
+               if k.get("property") != prop]
     st = collections.Counter()
     nontriv = set()
     events = 0
@@ -240,6 +242,11 @@ def run(prop, tier, seed, replay, obligations_extra=()):
         k = classify(prop, shrunk, comp, s2, known)
         if k:
             rep.known_finding(k["text"])
+            continue
+        fk = classify(prop, shrunk, comp, s2, foreign)
+        if fk and s2.error and not comp:
+            # the service died of a recorded defect that belongs to another property's check
+            rep.notes.append("scenario %s ends in recorded finding %s of %s; not attributed to %s" % (sc.name, fk["id"], fk["property"], prop))
             continue
         sig = pk.sha(re.sub(r"\d+", "N", (comp[0] if comp else str(s2.error))))
         if sig in reported:
